@@ -190,7 +190,7 @@ fn decode(t: &mut Tape) -> CbCase {
             5..=6 => gen::cosmetic_rule(t, &hosts),
             7 => {
                 // non-ASCII / odd domains in options
-                let d = t.choose(&["bücher.de", "пример.рф", "~bücher.de", "a.com|~b.com", "ex ample.com", "xn--", "ü", "a.com|ü.de", "~a.com|~ü.de", "A.COM", "-a-.com", "a..b", "😀.com", "\u{200b}.com", "a\u{fffd}.com", "\u{fffd}", "a.com|\u{fffd}b.com", "xn--a\u{fffd}", "é\u{0301}\u{0301}.com", "aaaaaaaaaaaaaaaaaaaaaaaaaaaaaaaaaaaaaaaaaaaaaaaaaaaaaaaaaaaaaaaaaaaaaaaaü.com", "a\u{202e}b.com", "\u{0}.com", "ß.de", "ǆ.com"]);
+                let d = t.choose(&["bücher.de", "пример.рф", "~bücher.de", "a.com|~b.com", "a.com|~/b[0-9]+\\.com/", "~b.com|/a[0-9]+\\.com/", "/x\\.com/|a.com|~c.com", "ex ample.com", "xn--", "ü", "a.com|ü.de", "~a.com|~ü.de", "A.COM", "-a-.com", "a..b", "😀.com", "\u{200b}.com", "a\u{fffd}.com", "\u{fffd}", "a.com|\u{fffd}b.com", "xn--a\u{fffd}", "é\u{0301}\u{0301}.com", "aaaaaaaaaaaaaaaaaaaaaaaaaaaaaaaaaaaaaaaaaaaaaaaaaaaaaaaaaaaaaaaaaaaaaaaaü.com", "a\u{202e}b.com", "\u{0}.com", "ß.de", "ǆ.com"]);
                 let mut d = d.to_string();
                 if t.chance(1, 3) {
                     // labels over characters whose case mappings change UTF-8 length or expand
@@ -248,7 +248,7 @@ fn decode(t: &mut Tape) -> CbCase {
 }
 
 pub fn check(ctx: &mut Ctx) {
-    ctx.rule = "debug-mode FilterSets of 1-12 lines (1 in 25: 40-540 lines) from the network and cosmetic generators plus pools biased to: non-ASCII / malformed / mixed if+unless domains in domain= and from= (incl. generated labels over characters whose case mapping changes UTF-8 length: U+212A, U+0130, U+1E9E, U+023A, U+2126, U+01C5, ligatures), '$' inside patterns and regexes, scheme-only patterns with negated types, hostname wildcards, every resource-type subset (bit pattern, on ASCII and non-ASCII patterns), match-case, entity / negated / regex / non-ASCII cosmetic locations, rules the exporter must refuse (redirect, csp, generichide, removeparam, badfilter, full regex). Validity predicates on the output: no panic; all strings ASCII; url-filter accepted by a recogniser of Safari's regex subset; never both if-domain and unless-domain; no non-ignore rule after an ignore-previous-rules rule; filters_used == the lines (network first, then cosmetic, in order) whose individual conversion succeeds, and the number of emitted rules equals the sum of their outputs (+1 first-party-document rule iff a network rule converted); inclusion: for patterns without * and ^, every generated URL the rule matches (5 request types x 2 sources) is matched by the emitted url-filter. Non-trivial = converted plain-pattern rule with a domain list, non-default types/party, or an anchor.".into();
+    ctx.rule = "debug-mode FilterSets of 1-12 lines (1 in 25: 40-540 lines) from the network and cosmetic generators plus pools biased to: non-ASCII / malformed / mixed if+unless domains (incl. regex entries '/re/') in domain= and from= (incl. generated labels over characters whose case mapping changes UTF-8 length: U+212A, U+0130, U+1E9E, U+023A, U+2126, U+01C5, ligatures), '$' inside patterns and regexes, scheme-only patterns with negated types, hostname wildcards, every resource-type subset (bit pattern, on ASCII and non-ASCII patterns), match-case, entity / negated / regex / non-ASCII cosmetic locations, rules the exporter must refuse (redirect, csp, generichide, removeparam, badfilter, full regex). Validity predicates on the output: no panic; all strings ASCII; url-filter accepted by a recogniser of Safari's regex subset; never both if-domain and unless-domain; no non-ignore rule after an ignore-previous-rules rule; filters_used == the lines (network first, then cosmetic, in order) whose individual conversion succeeds, and the number of emitted rules equals the sum of their outputs (+1 first-party-document rule iff a network rule converted); inclusion: for patterns without * and ^, every generated URL the rule matches (5 request types x 2 sources) is matched by the emitted url-filter. Non-trivial = converted plain-pattern rule with a domain list, non-default types/party, or an anchor.".into();
     ctx.assumptions = vec![
         "set-level output is compared with the library's own per-rule conversion (CbRuleEquivalent::try_from); the predicates on each emitted rule are independent".into(),
         "inclusion URLs carry no userinfo and no port".into(),
